@@ -14,7 +14,7 @@ byte value (a concatenation of composers / nested composes), not off emission or
 from __future__ import annotations
 
 from .model import ClassInfo, EnumMember, ExtRef, ParamsValue
-from .trace import Alt, Effect, Inline, Loop, New, Op, Opaque, Raise, Return, Try
+from .trace import Alt, Continue, Effect, Inline, Loop, New, Op, Opaque, Raise, Return, Try
 from .values import (BytesV, ClassV, ComposerV, DictV, FieldV, InputV, ListV, ObjV, ParserV, SelfV, Sym, Unknown,
                      is_const, show)
 
@@ -153,6 +153,8 @@ def structure(block, inlined=False):
         elif isinstance(nd, Try):
             out.append(('try', nd, structure(nd.body), [structure(h) for _, _, h in nd.handlers],
                         structure(nd.orelse), [terminates(h) for _, _, h in nd.handlers]))
+        elif isinstance(nd, Continue):
+            return out          # nothing of this pass follows
         else:
             out.append(nd)
             if isinstance(nd, (Return, Raise)):
@@ -170,12 +172,14 @@ def terminates(block):
     for nd in block:
         if isinstance(nd, Return):
             return 'return'
+        if isinstance(nd, Continue):
+            return 'continue'
         if isinstance(nd, Raise):
             return 'raise'
         if isinstance(nd, Alt):
             a, b = terminates(nd.then), terminates(nd.orelse)
             if a and b:
-                return 'return' if 'return' in (a, b) else 'raise'
+                return 'return' if 'return' in (a, b) else ('continue' if 'continue' in (a, b) else 'raise')
         if isinstance(nd, Inline):
             t = terminates(nd.body)
             if t == 'raise':
@@ -183,7 +187,7 @@ def terminates(block):
         if isinstance(nd, Try):
             parts = [terminates(nd.body + nd.orelse)] + [terminates(h) for _, _, h in nd.handlers]
             if all(parts):
-                return 'return' if 'return' in parts else 'raise'
+                return 'return' if 'return' in parts else ('continue' if 'continue' in parts else 'raise')
     return None
 
 
